@@ -1537,11 +1537,20 @@ def chunks(L, k):
 
 
 def cases(tier, seed, flavour):
+    """Four domain sizes: plain thorough > plain quick > asan thorough ('half') > asan quick ('red').  On the sanitizer
+    build every evaluation is 10-50 x more expensive (allocator quarantine, page faults), so the same enumeration
+    is run over fewer pattern blocks / smaller index palettes (stated in BOUNDS); nothing is sampled."""
     san = flavour == 'asan'
-    red = san and tier != 'thorough'              # reduced domain on the sanitizer build of the quick tier
-    if san and tier == 'thorough':
-        tier = 'quick'                            # ... and the quick domain on the sanitizer build of the thorough tier
+    red = san and tier != 'thorough'
+    half = san and tier == 'thorough'
+    if san:
+        tier = 'quick'
     th = tier == 'thorough'
+
+    def keep(bi, q_red, q_half=1):
+        """pattern blocks: every q_red-th on asan quick, every q_half-th on asan thorough, all otherwise"""
+        return bi % (q_red if red else (q_half if half else 1)) == 0
+
     # ---- 0. fixed small / empty matrices: construction (safe first case for the determinism gate)
     yield {'p': 'ctor', 'descs': [[f[0], f[1], tc, f[2]] for f in FIXED for tc in 'dz']}
     # ---- 1. single-operation cases that kill the interpreter / read outside the matrix on the unchanged tree
@@ -1562,17 +1571,17 @@ def cases(tier, seed, flavour):
     for combo in ((1, 1), (1, 0), (0, 1)):
         yield {'p': 'risky', 'op': 'syrkz', 'combo': list(combo), 'ck': 'syrk:z:sparse-operand'}
     yield {'p': 'risky', 'op': 'syrk-k0', 'ck': 'syrk:d:dense,sparse:k=0'}
-    # ---- 2. fixed patterns: every operation family
+    # ---- 2. fixed patterns (0x0, 0xn, mx0, 1x1, 1x3, 3x1, 3x3): every operation family
     for f in FIXED:
         for tc in 'dz':
             d = [f[0], f[1], tc, f[2]]
             yield {'p': 'unary', 'descs': [d]}
-            yield {'p': 'binary', 'A': [d], 'tcb': 'dz', 'tier': 'thorough'}
-            if red:
-                yield {'skip_empty1': san, 'p': 'index', 'A': d, 'level': 'tiny', 'vks': list(VK_QUICK), 'get': True}
+            yield {'p': 'binary', 'A': [d], 'tcb': 'dz', 'tier': 'quick' if san else 'thorough'}
+            if san:
+                yield {'skip_empty1': True, 'p': 'index', 'A': d, 'level': 'tiny', 'vks': list(VK_MID if red else VK_QUICK), 'get': True}
             else:
                 for gi, grp in enumerate(chunks(list(VK_ALL), 4)):
-                    yield {'skip_empty1': san, 'p': 'index', 'A': d, 'level': 'small', 'vks': grp, 'get': gi == 0}
+                    yield {'skip_empty1': False, 'p': 'index', 'A': d, 'level': 'small', 'vks': grp, 'get': gi == 0}
             yield {'p': 'gemv', 'descs': [d]}
             if f[0] == f[1] and tc == 'd':
                 yield {'p': 'symv', 'descs': [d]}
@@ -1582,16 +1591,15 @@ def cases(tier, seed, flavour):
     for (m, n) in SHAPES:
         for tc in 'dz':
             for bi, blk in enumerate(chunks(P3, 81)):
-                if red and bi % 2:
-                    continue
                 ds = [[m, n, tc, p] for p in blk]
-                yield {'p': 'ctor', 'descs': ds}
-                yield {'p': 'unary', 'descs': ds}
+                if keep(bi, 4, 2):
+                    yield {'p': 'ctor', 'descs': ds}
+                if keep(bi, 8, 2):
+                    yield {'p': 'unary', 'descs': ds}
             for bi, blk in enumerate(chunks(P3 if th else P3[::3], 27)):
-                if red and bi % 2:
-                    continue
-                yield {'p': 'binary', 'A': [[m, n, tc, p] for p in blk], 'tcb': 'dz' if th else tc + ('z' if tc == 'd' else 'd'),
-                       'tier': tier}
+                if keep(bi, 4, 2):
+                    yield {'p': 'binary', 'A': [[m, n, tc, p] for p in blk], 'tcb': 'dz' if th else tc + ('z' if tc == 'd' else 'd'),
+                           'tier': tier}
     # ---- 4. block matrices and spdiag
     for part in range(4):
         yield {'p': 'blocks', 'part': part, 'tier': tier}
@@ -1600,30 +1608,32 @@ def cases(tier, seed, flavour):
     for (m, n) in SHAPES:
         for tc in 'dz':
             for bi, blk in enumerate(chunks(P3 if th else P2, 8)):
-                if red and bi % 4:
+                if not keep(bi, 8, 2):
                     continue
                 for p in blk:
-                    yield {'skip_empty1': san, 'p': 'index', 'A': [m, n, tc, p], 'level': 'tiny', 'vks': list(VK_QUICK), 'get': True}
+                    yield {'skip_empty1': san, 'p': 'index', 'A': [m, n, tc, p], 'level': 'tiny',
+                           'vks': list(VK_MID if red else VK_QUICK), 'get': True}
             if th:
                 for p in P2:
                     for gi, grp in enumerate(chunks(list(VK_ALL), 4)):
                         yield {'skip_empty1': san, 'p': 'index', 'A': [m, n, tc, p], 'level': 'small', 'vks': grp, 'get': gi == 0}
     # ---- 6. selected matrices x full index-expression domains
-    sel = SEL[:1] if red else (SEL if th else SEL[:2])
+    sel = SEL[:1] if san else (SEL if th else SEL[:2])
     for d in sel:
         for k in 'islm':
-            yield {'skip_empty1': san, 'p': 'index1', 'A': d, 'kind': k, 'level': 'full', 'vks': list(VK_ALL)}
+            yield {'skip_empty1': san, 'p': 'index1', 'A': d, 'kind': k, 'level': 'mid' if red else 'full', 'vks': list(VK_ALL)}
         rl = 'small' if red else 'mid'
         for rk in 'islm':
             for ck in 'islm':
                 yield {'skip_empty1': san, 'p': 'index2', 'A': d, 'rk': rk, 'ck': ck, 'rl': rl, 'cl': 'mid', 'vks': [], 'get': True}
-                for vk in (VK_ALL if th else VK_MID):
+                for vk in (VK_ALL if th else (('num', 'sfit') if red else VK_MID)):
                     yield {'skip_empty1': san, 'p': 'index2', 'A': d, 'rk': rk, 'ck': ck, 'rl': rl, 'cl': 'mid', 'vks': [vk], 'get': False}
+        ll = 'mid' if red else 'full'
         for lk in 'lm':
             for ok in 'islm':
-                for vks, get in ((([], True), (['num'], False)) if red else (([], True), (['num'], False), (['dfit'], False), (['sfit'], False))):
-                    yield {'skip_empty1': san, 'p': 'index2', 'A': d, 'rk': lk, 'ck': ok, 'rl': 'full', 'cl': 'small', 'vks': vks, 'get': get}
-                    yield {'skip_empty1': san, 'p': 'index2', 'A': d, 'rk': ok, 'ck': lk, 'rl': 'small', 'cl': 'full', 'vks': vks, 'get': get}
+                for vks, get in ((([], True), (['num'], False)) if san else (([], True), (['num'], False), (['dfit'], False), (['sfit'], False))):
+                    yield {'skip_empty1': san, 'p': 'index2', 'A': d, 'rk': lk, 'ck': ok, 'rl': ll, 'cl': 'small', 'vks': vks, 'get': get}
+                    yield {'skip_empty1': san, 'p': 'index2', 'A': d, 'rk': ok, 'ck': lk, 'rl': 'small', 'cl': ll, 'vks': vks, 'get': get}
     if th:
         for d in SEL[:2]:
             for rk in 'sl':
@@ -1641,11 +1651,10 @@ def cases(tier, seed, flavour):
                        'py': pal(m, n, 'thorough') if not th else None}
         for tc in 'dz':
             for bi, blk in enumerate(chunks(P3 if th else P2, 16)):
-                if red and bi % 2:
-                    continue
-                yield {'p': 'gemv', 'descs': [[m, n, tc, p] for p in blk]}
+                if keep(bi, 4, 2):
+                    yield {'p': 'gemv', 'descs': [[m, n, tc, p] for p in blk]}
     yield {'p': 'symv', 'descs': [[2, 2, 'd', p] for p in all_patterns(4)]}
-    npat = 5 if th else (2 if red else 3)
+    npat = 5 if th else (2 if san else 3)
     for (m, n, k) in ((2, 3, 2), (3, 2, 3), (1, 2, 3), (2, 1, 1), (2, 2, 0), (0, 2, 2), (2, 0, 2)) + (((3, 3, 1), (1, 1, 2)) if th else ()):
         for tc in 'dz':
             for combo in itertools.product((1, 0), repeat=3):
